@@ -343,7 +343,8 @@ C06Ys ==
    CC(<<Orig(<<cA, NL>>), Raw("str", <<>>)>>),
    Replace(Orig(<<cA, NL, cA>>), <<Repl(1, 2, <<cX>>)>>)}
 
-ObsAllF(r) == ObsAll(r) \o <<[op |-> "stream", r |-> r, columns |-> TRUE, final |-> TRUE]>>
+ObsAllF(r) == ObsAll(r) \o <<[op |-> "stream", r |-> r, columns |-> TRUE, final |-> TRUE],
+                             [op |-> "stream", r |-> r, columns |-> TRUE, final |-> FALSE]>>
 
 ConcatChildrenProg(a, b, c) ==
   Prog(<<[op |-> "build", dst |-> 1, tree |-> a]>> \o ObsAllF(1)
@@ -505,7 +506,7 @@ C09Sms(t, osegs, isegs, withOsrc, remove) ==
 
 C09Prog(x) ==
   Prog(<<Build(x), Obs("source"), MapStep(TRUE), MapStep(FALSE),
-         Stream(TRUE, FALSE), Stream(FALSE, FALSE)>>)
+         Stream(TRUE, FALSE), Stream(FALSE, FALSE), Stream(TRUE, TRUE), Stream(FALSE, TRUE)>>)
 
 C09T1 == <<cA, cB>>
 C09T2 == <<cA, cSP, cB, NL, cA, cB>>
